@@ -11,6 +11,7 @@ mod c15;
 mod c16;
 mod c18;
 mod c19;
+mod c20;
 mod capi;
 
 fn main() {
@@ -35,6 +36,7 @@ fn main() {
         "c16" => c16::main(&rest),
         "c18" => c18::main(&rest),
         "c19" => c19::main(&rest),
+        "c20" => c20::main(&rest),
         "c18one" => {
             let spec = rest.first().cloned().unwrap_or_default();
             let imp = rest.get(1).cloned().unwrap_or_default();
